@@ -291,6 +291,10 @@ def random_cases(draw, kind):
     nlines = len(doc['rows'])
     if draw(st.integers(0, 3)) == 0:
         case['blanks'] = sorted(set(draw(st.lists(st.integers(0, nlines - 1), min_size=1, max_size=3))))
+        # blank lines directly after a global comment / after the terminator line are the interesting places
+        special = [i + 1 for i, r in enumerate(doc['rows']) if i + 1 < nlines and ('g' in r or all(c['t'] == '*-' for c in r['c']))]
+        if special and draw(st.booleans()):
+            case['blanks'] = sorted(set(case['blanks'] + [draw(st.sampled_from(special))]))
     if draw(st.integers(0, 4)) == 0:
         case['nl'] = '\r\n'
     if draw(st.integers(0, 3)) == 0:
